@@ -15,7 +15,7 @@ let dgram_bytes (b : z list) : string =
 
 let show_out (o : rt_out) : string option =
   match o with
-  | RoTx (t, _, s, b) -> Some (Printf.sprintf "tx:%s:%s:%s" (zs t) (zs s) (dgram_bytes b))
+  | RoTx (t, _, s, b, _, _) -> Some (Printf.sprintf "tx:%s:%s:%s" (zs t) (zs s) (dgram_bytes b))
   | RoSent m -> Some ("s:" ^ zs m)
   | RoNack (t, _, s, r, m, _, _) -> Some (Printf.sprintf "nk:%s:%s:%s:%s:1" (zs t) (zs s) (zs r) (zs m))
   | RoNackNoPdu (t, s, r, m) -> Some (Printf.sprintf "nk:%s:%s:%s:%s:0" (zs t) (zs s) (zs r) (zs m))
